@@ -59,8 +59,9 @@ func (sl *serialWriter) Write(al plugintypes.AuditLog) error {
 		return nil
 	}
 
-	sl.logger.Println(string(bts))
-	return nil
+	// Output, unlike Println, hands back the error of the underlying write: a record that
+	// could not be written must not be lost silently.
+	return sl.logger.Output(2, string(bts))
 }
 
 var _ plugintypes.AuditLogWriter = (*serialWriter)(nil)
